@@ -65,7 +65,7 @@ func c06ItemReserve(ix int) string {
 	return ""
 }
 
-const c06InsForms = 8
+const c06InsForms = 9
 
 func c06Insert(name string, form int) *Node {
 	tag := strings.ToUpper(name)
@@ -82,6 +82,8 @@ func c06Insert(name string, form int) *Node {
 		return &Node{K: "insert", Name: name, E: eVar("v")}
 	case 6:
 		return &Node{K: "insert", Name: name, E: eBin("+", eLit(vStr("I"+tag+"+")), eVar("v"))}
+	case 8: // the body reads the loop variable of the layout block around the reserve (in-place evaluation)
+		return &Node{K: "insert", Name: name, Body: []*Node{nText("I" + tag + "[i="), nPrint(eVar("i")), nText("]")}}
 	case 7: // the body assigns a variable that the layout may read after the reserve
 		return &Node{K: "insert", Name: name, Body: []*Node{nAssign("w", eLit(vStr("dark"+tag))), nText("I" + tag + "-set")}}
 	}
